@@ -336,6 +336,101 @@ def chain_generator(f: FuncInfo) -> tuple[str, str] | str:
         return str(e)
 
 
+def index_chain_generator(f: FuncInfo) -> tuple[str, str] | str:
+    """The same chain produced by walking an *index* over the unchanged name:
+
+        i = p.rfind(".")            (parents)        |   i = len(p)    (the name itself first)
+        while i != -1:                               |   while True:
+            yield p[:i]                              |       yield p[:i]
+            i = p.rfind(".", 0, i)                   |       i = p.rfind(".", 0, i)
+                                                     |       if i == -1: return
+
+    Every yield is the prefix that ends at the current index; the step moves the index to the last '.' before it; the loop ends exactly
+    when there is none (-1): nearest first, up to the root."""
+    if isinstance(f.node, ast.Lambda):
+        return "not a generator function"
+    a = f.node.args
+    params = [p.arg for p in [*a.posonlyargs, *a.args, *a.kwonlyargs]]
+    if f.cls is not None and f.outer is None and not f.is_staticmethod and params:
+        params = params[1:]
+    if len(params) != 1 or a.vararg or a.kwarg:
+        return "not a generator of one name"
+    p = params[0]
+    body = [s for s in f.node.body if not (isinstance(s, ast.Expr) and isinstance(s.value, ast.Constant))]
+    if len(body) != 2 or not isinstance(body[1], ast.While) or body[1].orelse:
+        return "not `index = ...; while ...:`"
+    init, W = body
+    tgt = init.targets[0] if isinstance(init, ast.Assign) and len(init.targets) == 1 else (init.target if isinstance(init, ast.AnnAssign) and init.value is not None else None)
+    if not isinstance(tgt, ast.Name):
+        return "no index variable"
+    i = tgt.id
+    if any(isinstance(x, ast.Name) and x.id == p and isinstance(x.ctx, ast.Store) for x in ast.walk(f.node)):
+        return "the name is reassigned"
+
+    def is_p(e):
+        return isinstance(e, ast.Name) and e.id == p
+
+    def is_i(e):
+        return isinstance(e, ast.Name) and e.id == i
+
+    def minus1(e):
+        return (isinstance(e, ast.UnaryOp) and isinstance(e.op, ast.USub) and isinstance(e.operand, ast.Constant) and e.operand.value == 1) or (isinstance(e, ast.Constant) and e.value == -1)
+
+    v = init.value
+    if isinstance(v, ast.Call) and isinstance(v.func, ast.Attribute) and v.func.attr == "rfind" and is_p(v.func.value) and len(v.args) == 1 and not v.keywords and const_str(v.args[0]) == ".":
+        domain = "parents"
+    elif isinstance(v, ast.Call) and isinstance(v.func, ast.Name) and v.func.id == "len" and len(v.args) == 1 and is_p(v.args[0]):
+        domain = "lineage"
+    else:
+        return "the index does not start at the end of the name / at its last '.'"
+
+    def not_done(t) -> bool | None:
+        """True: test holds iff index != -1;  False: iff index == -1"""
+        if isinstance(t, ast.Compare) and len(t.ops) == 1:
+            l, op, r = t.left, t.ops[0], t.comparators[0]
+            if is_i(l) and minus1(r):
+                if isinstance(op, (ast.NotEq, ast.Gt)):
+                    return True
+                if isinstance(op, ast.Eq):
+                    return False
+            if is_i(r) and minus1(l):
+                if isinstance(op, (ast.NotEq, ast.Lt)):
+                    return True
+                if isinstance(op, ast.Eq):
+                    return False
+            if is_i(l) and isinstance(r, ast.Constant) and r.value == 0 and not isinstance(r.value, bool):
+                if isinstance(op, ast.GtE):
+                    return True
+                if isinstance(op, ast.Lt):
+                    return False
+        return None
+
+    stmts = list(W.body)
+    forever = isinstance(W.test, ast.Constant) and W.test.value is True
+    if not forever and not_done(W.test) is not True:
+        return "the loop condition is not 'a separator was found'"
+    if domain == "lineage" and not forever and False:
+        return ""
+    if len(stmts) < 2:
+        return "loop body"
+    y, step = stmts[0], stmts[1]
+    if not (isinstance(y, ast.Expr) and isinstance(y.value, ast.Yield) and isinstance(y.value.value, ast.Subscript) and is_p(y.value.value.value) and isinstance(y.value.value.slice, ast.Slice)
+            and y.value.value.slice.lower is None and y.value.value.slice.step is None and is_i(y.value.value.slice.upper)):
+        return "the loop does not start with `yield name[:index]`"
+    st = step.targets[0] if isinstance(step, ast.Assign) and len(step.targets) == 1 else None
+    sv = step.value if isinstance(step, ast.Assign) else None
+    if not (is_i(st) and isinstance(sv, ast.Call) and isinstance(sv.func, ast.Attribute) and sv.func.attr == "rfind" and is_p(sv.func.value) and len(sv.args) == 3 and not sv.keywords
+            and const_str(sv.args[0]) == "." and isinstance(sv.args[1], ast.Constant) and sv.args[1].value == 0 and is_i(sv.args[2])):
+        return "the step is not `index = name.rfind('.', 0, index)`"
+    rest = stmts[2:]
+    if forever:
+        if not (len(rest) == 1 and isinstance(rest[0], ast.If) and not rest[0].orelse and not_done(rest[0].test) is False and len(rest[0].body) == 1 and isinstance(rest[0].body[0], (ast.Return, ast.Break)) and getattr(rest[0].body[0], "value", None) is None):
+            return "`while True` without `if index == -1: return` after the step"
+    elif rest:
+        return "further statements in the loop"
+    return (domain, "near")
+
+
 def chain_call(M, call: ast.Call, n: str) -> tuple[str, str] | None:
     """`helper(n)` where helper is a repo generator accepted by chain_generator  ->  (domain, order)"""
     from .common import types_of
@@ -353,4 +448,6 @@ def chain_call(M, call: ast.Call, n: str) -> tuple[str, str] | None:
     if len(cs) != 1 or how != "repo":
         return None
     got = chain_generator(cs[0])
+    if not isinstance(got, tuple):
+        got = index_chain_generator(cs[0])
     return got if isinstance(got, tuple) else None
